@@ -4,7 +4,7 @@
 //! Protocol (stdin, one command per line):
 //!   JOB <id> <api> <stack_kib> <repeat> <max_evals> <cfg> <hex input>
 //!   THREADS <n>     ... JOB lines ... END      (jobs of the batch run concurrently on n threads)
-//! api: str | stream | probe.  cfg: '-' or ';'-separated k=v (string values hex encoded).
+//! api: str | stream | streamshort | strseq | probe.  cfg: '-' or ';'-separated k=v (string values hex encoded).
 use std::cell::RefCell;
 use std::io::{BufRead, Write};
 use std::panic;
@@ -185,6 +185,18 @@ fn run_once(job: &Job) -> String {
             let mut w: Vec<u8> = Vec::new();
             let res = svgdx::transform_stream(&mut r, &mut w, &job.cfg);
             (Some(res.map(|_| w)), None)
+        }
+        // a history on ONE thread through the string API: the input holds several documents separated by two RS bytes; all are
+        // transformed in order on this thread, the result of the last one is reported (state kept per thread would show there)
+        "strseq" => {
+            let mut last = None;
+            for part in job.input.split(|b| *b == 0x1e).filter(|p| !p.is_empty()) {
+                last = match String::from_utf8(part.to_vec()) {
+                    Ok(s) => Some(svgdx::transform_str(s, &job.cfg).map(|o| o.into_bytes())),
+                    Err(_) => None,
+                };
+            }
+            (last, None)
         }
         // the stream API into a sink that accepts only a few bytes per write() call, as a pipe or a line-buffered
         // stdout may: a conforming Write implementation, so everything must still arrive
